@@ -35,6 +35,7 @@ type Config struct {
 	Start     time.Time
 	BudgetS   int // soft time budget in seconds for the whole run (0 = tier default)
 	BFSWorker string // non-empty: serve transitions of the PBFS with this name (see pbfs.go)
+	RacePass  bool   // free-running pass of the scenario bodies under the race detector (vx harnesses)
 }
 
 func (c *Config) Thorough() bool { return c.Tier == "thorough" }
@@ -67,6 +68,7 @@ func ParseFlags(id, level string) *Config {
 	flag.IntVar(&c.Workers, "workers", 16, "worker processes")
 	flag.IntVar(&c.BudgetS, "budget", 0, "soft time budget in seconds")
 	flag.StringVar(&c.BFSWorker, "bfsworker", "", "internal: PBFS worker mode")
+	flag.BoolVar(&c.RacePass, "racepass", false, "free-running race-detector pass (binary must be built with -race)")
 	flag.Parse()
 	if c.Tier != "quick" && c.Tier != "thorough" {
 		c.Tier = "quick"
